@@ -292,6 +292,9 @@ ElfItems(mem, it, p) ==
 IsElfItem(o, e) ==
   /\ o.k = "some" /\ o.v.raw = e.raw /\ o.v.typ = e.typ /\ o.v.flags = e.flags /\ o.v.addr = e.addr
   /\ o.v.size = e.size /\ o.v.addralign = e.addralign /\ o.v.alloc = e.alloc
+  \* end address = start + size; when that leaves 64 bits the value is unspecified (but controlled)
+  /\ (Has(o.v, "end") => IF CarryOut(e.addr, e.size, 0) = 1 THEN o.v.end.k \in {"panic", "val"}
+                         ELSE o.v.end = Val(AddLE(e.addr, e.size, 0)))
 \* name: the NUL-terminated string at ext.data[name_index ..]
 ElfNameSpec(ext, e) ==
   IF e.name_index >= Len(ext.data) THEN [k |-> "free"]
